@@ -159,4 +159,43 @@ def f_classes():
     return A(1).m(), B(1).m(), (A(1) + B(2)).v, A(3) == A(3), A(3) == 3, len(B(4)), isinstance(B(1), A), B.k, [c.__name__ for c in B.__mro__][:2]
 
 
-TESTS = [("f_gen", (4,)), ("f_tryfinally", (True,)), ("f_tryfinally", (False,)), ("f_star", (1, 2, 3)), ("f_compr", (4,)), ("f_nonlocal", ()), ("f_global", ()), ("f_while_else", (3,)), ("f_fstring", (7,)), ("f_misc", ()), ("f_asserts", (1,)), ("f_lambda_default", ()), ("f_setops", ()), ("f_more", ()), ("f_classes", ())]
+class _Pt:
+    def __init__(self, x, y):
+        self.x = x
+        self.y = y
+
+
+def f_match(v):
+    out = []
+    for s in (v, "TORUS", 3, True, None, (1, 2), [1, 2, 3, 4], {"a": 1, "b": 2}, _Pt(0, 5), _Pt(1, 1), 2.5, "other", ()):
+        match s:
+            case "TORUS" | "SAME":
+                out.append("str-pad")
+            case bool():
+                out.append("bool")
+            case int() as n if n > 2:
+                out.append(("big-int", n))
+            case int():
+                out.append("int")
+            case None:
+                out.append("none")
+            case (a, b):
+                out.append(("pair", a, b))
+            case [first, *rest]:
+                out.append(("seq", first, rest))
+            case {"a": x, **others}:
+                out.append(("map", x, sorted(others)))
+            case _Pt(x=0, y=yy):
+                out.append(("pt-on-axis", yy))
+            case _Pt():
+                out.append("pt")
+            case float():
+                out.append("float")
+            case str() as t:
+                out.append(("str", t))
+            case _:
+                out.append("default")
+    return out
+
+
+TESTS = [("f_gen", (4,)), ("f_tryfinally", (True,)), ("f_tryfinally", (False,)), ("f_star", (1, 2, 3)), ("f_compr", (4,)), ("f_nonlocal", ()), ("f_global", ()), ("f_while_else", (3,)), ("f_fstring", (7,)), ("f_misc", ()), ("f_asserts", (1,)), ("f_lambda_default", ()), ("f_setops", ()), ("f_more", ()), ("f_classes", ()), ("f_match", (1,)), ("f_match", ((7, 8),))]
